@@ -27,6 +27,8 @@ pub enum Op {
     GetSnapshotById(usize),
     Forget,
     Prune,
+    /// prune with fast repacking and instant deletion (packs are copied without re-encoding)
+    PruneFast,
     Check { trust_cache: bool },
     ReadAll,
 }
@@ -42,6 +44,9 @@ pub enum Act {
     ExtendCached,
     /// a cached tree pack is replaced by a foreign file of another size (other bytes, 16 more)
     ForeignLongerCachedPack,
+    /// foreign files (other bytes, 13 more) under the names of all *data* packs of the repository
+    /// appear in the cache directory, where the library itself never puts data packs
+    PlantForeignDataPacks,
     ForeignCached,
     PlantJunk,
 }
@@ -57,6 +62,7 @@ pub struct St {
     tainted: bool,
     /// a cached tree pack was replaced by a longer foreign file and no check has cleaned it up yet
     tainted_pack: bool,
+    planted_data: bool,
 }
 
 pub struct C19 {
@@ -109,9 +115,19 @@ fn run_op(env: &Env, op: &Op, n: usize, snap_ids: &[String]) -> String {
                 Err(e) => es(e),
             }
         }
-        Op::Prune => {
-            let o = PruneOptions::default().max_unused(LimitOption::Percentage(0)).max_repack(LimitOption::Unlimited).keep_delete(jiff::Span::new());
-            match env.open().and_then(|r| r.prune_plan(&o).and_then(|p| r.prune(&o, p))) {
+        Op::Prune | Op::PruneFast => {
+            let mut o = PruneOptions::default().max_unused(LimitOption::Percentage(0)).max_repack(LimitOption::Unlimited).keep_delete(jiff::Span::new());
+            if matches!(op, Op::PruneFast) {
+                o = o.fast_repack(true).instant_delete(true);
+            }
+            match env.open().and_then(|r| {
+                r.prune_plan(&o).and_then(|p| {
+                    if std::env::var("VERIF_DEBUG").is_ok() {
+                        _ = std::fs::write("/tmp/own/c19debug.txt", format!("repack {} packs; {:?}", p.repack_packs().len(), p.stats.debug.0.iter().map(|(k, v)| (format!("{:?}/{:?}", k.todo, k.blob_type), v.packs)).collect::<Vec<_>>()));
+                    }
+                    r.prune(&o, p)
+                })
+            }) {
                 Ok(()) => "Ok".into(),
                 Err(e) => es(e),
             }
@@ -156,7 +172,7 @@ impl SeqModel for C19 {
         cfg.treepack_size = Some(500);
         cfg.treepack_growfactor = Some(0);
         _ = env.init_with(cfg).expect("init");
-        let empty = St { store: env.store(), cache: FsTree::new(), n: 0, snap_ids: vec![], tainted: false, tainted_pack: false };
+        let empty = St { store: env.store(), cache: FsTree::new(), n: 0, snap_ids: vec![], tainted: false, tainted_pack: false, planted_data: false };
         // a repository with two snapshots whose cache was filled by a cached handle
         let mut s = empty.clone();
         for a in [Act::Cached(Op::Backup), Act::Cached(Op::Backup), Act::Cached(Op::ReadAll)] {
@@ -173,13 +189,14 @@ impl SeqModel for C19 {
         if !s.snap_ids.is_empty() {
             ops.push(Op::Forget);
             ops.push(Op::Prune);
+            ops.push(Op::PruneFast);
             for i in 0..s.snap_ids.len().min(3) {
                 ops.push(Op::GetSnapshotById(i));
             }
         }
         let mut v: Vec<Act> = ops.iter().cloned().map(Act::Cached).collect();
         for o in ops {
-            if matches!(o, Op::Backup | Op::Forget | Op::Prune) {
+            if matches!(o, Op::Backup | Op::Forget | Op::Prune | Op::PruneFast) {
                 v.push(Act::Uncached(o));
             }
         }
@@ -190,6 +207,9 @@ impl SeqModel for C19 {
         }
         if !self.cached_files(&s.cache, "data").is_empty() {
             v.push(Act::ForeignLongerCachedPack);
+        }
+        if !s.planted_data && !s.store.list(FileType::Pack).is_empty() {
+            v.push(Act::PlantForeignDataPacks);
         }
         v.push(Act::PlantJunk);
         v
@@ -224,7 +244,7 @@ impl SeqModel for C19 {
             c.push(format!("{tdir}:{desc}:{}", if in_store { "live" } else { "stale" }));
         }
         c.sort();
-        format!("{}\n--cache--\n{}\nn={}", canon_store(&self.raw, &s.store).join("\n"), c.join("\n"), s.n) + if s.tainted { " tainted" } else { "" } + if s.tainted_pack { " tainted-pack" } else { "" }
+        format!("{}\n--cache--\n{}\nn={}", canon_store(&self.raw, &s.store).join("\n"), c.join("\n"), s.n) + if s.tainted { " tainted" } else { "" } + if s.tainted_pack { " tainted-pack" } else { "" } + if s.planted_data { " planted-data" } else { "" }
     }
 
     fn invariant(&self, _s: &St, _rep: &mut Report) -> Result<(), Viol> {
@@ -262,6 +282,17 @@ impl SeqModel for C19 {
                     if canon_store(&self.raw, &after) != canon_store(&self.raw, &twin.store()) {
                         return Err((format!("C19/repository-differs/{cls}"), "the repository contents differ from those of the uncached twin".into()));
                     }
+                    // the canonical form describes packs by their headers: what a command wrote must
+                    // also *open* - every snapshot of the resulting repository is decoded independently
+                    // wherever the uncached twin's is readable
+                    if matches!(op, Op::Backup | Op::Prune | Op::PruneFast) && res.starts_with("Ok") {
+                        let twin_ok = vkit::decode::independent_read(&self.raw, &twin.store()).is_ok();
+                        if twin_ok {
+                            if let Err(e) = vkit::decode::independent_read(&self.raw, &after) {
+                                return Err((format!("C19/repository-corrupted/{cls}"), format!("after the cached operation the repository does not decode although the uncached twin's does: {e}")));
+                            }
+                        }
+                    }
                     rep.inc("differential_comparisons");
                     if res.contains("+cache-mismatch-reported") {
                         rep.inc("cache_mismatch_reported_by_check");
@@ -271,7 +302,7 @@ impl SeqModel for C19 {
                     let listed: &[(&str, FileType)] = match op {
                         Op::GetAllSnapshots | Op::Forget => &[("snapshots", FileType::Snapshot)],
                         Op::ReadAll | Op::Backup => &[("index", FileType::Index)],
-                        Op::Check { .. } | Op::Prune => &[("snapshots", FileType::Snapshot), ("index", FileType::Index)],
+                        Op::Check { .. } | Op::Prune | Op::PruneFast => &[("snapshots", FileType::Snapshot), ("index", FileType::Index)],
                         Op::GetSnapshotById(_) => &[],
                     };
                     if res.starts_with("Ok") {
@@ -337,6 +368,18 @@ impl SeqModel for C19 {
                     e.data = Some(d.iter().map(|b| b ^ 0x5a).chain(*b"SIXTEEN MORE BYT").collect());
                     n.tainted_pack = true;
                 }
+            }
+            Act::PlantForeignDataPacks => {
+                let mk = |data: Vec<u8>| vkit::fsx::FsNode { kind: "file".into(), data: Some(data), target: None, mode: 0o644, mtime: 0, ino: 0, nlink: 1 };
+                for (id, _) in s.store.list(FileType::Pack) {
+                    let data = s.store.get(FileType::Pack, &id).unwrap();
+                    if vkit::decode::pack_header(&self.raw, data).is_ok_and(|h| h.iter().all(|b| b.tpe == 0)) {
+                        let hex = hex_id(&id);
+                        let foreign: Vec<u8> = data.iter().map(|b| b ^ 0x5a).chain(*b"THIRTEEN MORE").collect();
+                        _ = n.cache.insert(format!("{REPO_ID}/data/{}/{hex}", &hex[..2]).into_bytes(), mk(foreign));
+                    }
+                }
+                n.planted_data = true;
             }
             Act::PlantJunk => {
                 let mk = |data: &[u8]| vkit::fsx::FsNode { kind: "file".into(), data: Some(data.to_vec()), target: None, mode: 0o644, mtime: 0, ino: 0, nlink: 1 };
